@@ -196,7 +196,7 @@ M("C11", "unit-data-b2", PE, "    _message_type = DataItem.connected\n    _addre
 M("C11", "connected-code", PE, '    connected = b"\\xb1\\x00"', '    connected = b"\\xb3\\x00"', ["D11.4"])
 M("C11", "append-before-super", PL, "    def _setup_message(self):\n        super()._setup_message()\n        self._msg += [Services.multiple_service_request, self.request_path]", "    def _setup_message(self):\n        self._msg += [Services.multiple_service_request, self.request_path]\n        super()._setup_message()", ["D11.5"])
 M("C11", "session-zero", CD, '"session_id": self._session,', '"session_id": 0,', ["D11.6"])
-M("C11", "cid-from-4-8", CD, "self._target_cid = response.value[:4]", "self._target_cid = response.value[4:8]", ["D11.6"])
+M("C11", "cid-from-4-8", CD, "self._target_cid = response.value[:4]", "self._target_cid = response.value[4:8]", ["D11.9"])
 M("C11", "rr-keeps-addr", PE, "return super()._build_common_packet_format(message, addr_data=None)", "return super()._build_common_packet_format(message, addr_data=addr_data)", ["D11.3"])
 M("C11", "unregister-expects-reply", PE, "    response_class = UnRegisterSessionResponsePacket\n    no_response = True", "    response_class = UnRegisterSessionResponsePacket\n    no_response = False", ["D11.4"])
 M("C11", "context-7", CD, '"context": b"_pycomm_",', '"context": b"pycomm_",', ["D11.1"])
